@@ -391,6 +391,19 @@ func c10Rules() []c10Rule {
 			Ctl: func(v int) (map[string]any, map[string]any) {
 				return nil, m("volumes", m("extvol", m("external", true, "name", "outside")))
 			}},
+		// the flag spelled as a string (the schema admits one), with and without the interpolation step that would
+		// turn it into a boolean early
+		{Name: "external-volume-with-creation-parameters-spelled",
+			Make: func(v int) (map[string]any, map[string]any) {
+				vol := m("external", []any{"true", "yes", "on", "True", "Y"}[v%5])
+				for k, e := range extParam[v%len(extParam)] {
+					vol[k] = e
+				}
+				return nil, m("volumes", m("extvol", vol))
+			},
+			Ctl: func(v int) (map[string]any, map[string]any) {
+				return nil, m("volumes", m("extvol", []any{m("external", "true", "name", "outside"), m("external", "false", "driver", "local"), m("external", "no", "labels", m("a", "b"))}[v%3]))
+			}},
 		{Name: "secret-without-source",
 			Make: func(v int) (map[string]any, map[string]any) {
 				return nil, m("secrets", m("sec", []any{m(), m("labels", m("a", "b")), m("name", "n"), m("external", false), m("external", false, "name", "n")}[v%5]))
@@ -505,6 +518,14 @@ func c10RuleCase(rule c10Rule, placement string, variant int, control bool) (c10
 		main := map[string]any{"include": []any{"inc/compose.yaml"}, "services": map[string]any{"front": map[string]any{"image": "busybox"}}}
 		cs.Load = loadCase{Files: []memFile{{Name: "compose.yaml", Content: emitYAML(main, nil)}, {Name: "inc/compose.yaml", Content: emitYAML(doc, nil)}}, Main: []string{"compose.yaml"}}
 		cs.OnDisk = true
+	}
+	if strings.HasSuffix(rule.Name, "-spelled") {
+		switch (variant / 5) % 3 {
+		case 1:
+			cs.Load.Opts.SkipInterpolation = true
+		case 2:
+			cs.Load.Opts.NilInterpolate = true
+		}
 	}
 	return cs, true
 }
